@@ -1137,7 +1137,14 @@ class Evaluator:
                        ast.Mult: lambda x, y: x * y, ast.Div: lambda x, y: x / y}
                 if type(st.op) not in ops:
                     raise Und("augmented operator")
-                self.assign(st.target, pw_bin(as_pw(cur), as_pw(val), ops[type(st.op)]), env, ctx)
+                try:
+                    res = pw_bin(as_pw(cur), as_pw(val), ops[type(st.op)])
+                except Und:
+                    # `x op= v` is `x = x op v`: values that are not plain numbers (whole arrays of the array-program evaluator)
+                    # go through the evaluator's own binary operation
+                    tgt = ast.parse(ast.unparse(st.target), mode="eval").body
+                    res = self.ev(ast.copy_location(ast.BinOp(left=tgt, op=st.op, right=st.value), st), env, ctx)
+                self.assign(st.target, res, env, ctx)
                 continue
             if isinstance(st, ast.Return):
                 return self.ev(st.value, env, ctx) if st.value is not None else NONE
